@@ -398,7 +398,7 @@ Proof.
   unfold next_idx. unfold idx_ok in Hok. destruct (cs_idx cs) as [i|].
   - destruct (i =? len (cs_comps cs) - 1) eqn:E.
     + apply gtc_menu; auto.
-    + rewrite Z.min_r by lia. apply gtc_menu; auto. lia.
+    + rewrite Z.min_r by lia. rewrite Z.max_r by lia. apply gtc_menu; auto. lia.
   - apply gtc_menu; auto. lia.
 Qed.
 
@@ -412,7 +412,7 @@ Proof.
   unfold prev_idx. unfold idx_ok in Hok. destruct (cs_idx cs) as [i|].
   - destruct (i =? 0) eqn:E.
     + apply gtc_menu; auto.
-    + rewrite Z.max_r by lia. apply gtc_menu; auto. lia.
+    + rewrite Z.max_r by lia. rewrite Z.min_r by lia. apply gtc_menu; auto. lia.
   - apply gtc_menu; auto. lia.
 Qed.
 
